@@ -137,6 +137,9 @@ def configs(tier, seed):
             mm, nn = (2, 1) if quick else (2, 2)
         out.append({'model': model, 'm': mm, 'n': nn, 'variant': 'full', 'offset_history': True, 'group': 'k0-after-offset-redefinition:%s' % model, 's': 2})
         out.append({'model': model, 'm': mm, 'n': nn, 'variant': 'y1y2', 'group': 'k0y1y2:%s' % model, 's': 2})
+        # four terms along one direction: all four boundary flags (1t, 1r, 2t, 2r) of that direction enter the integrals
+        out.append({'model': model, 'm': 1, 'n': 4, 'variant': 'y1y2', 'group': 'k0y1y2:%s' % model, 's': 1 if model == 'kpanel' else 2})
+        out.append({'model': model, 'm': 4, 'n': 1, 'variant': 'y1y2', 'group': 'k0y1y2:%s' % model, 's': 1 if model == 'kpanel' else 2})
         out.append({'model': model, 'm': 2, 'n': 2, 'variant': 'offset', 'off': 3 + seed % 4, 'group': 'placement:%s' % model, 's': 2})
         if model != 'kpanel' or not quick:
             out.append({'model': model, 'm': 2, 'n': 1, 'variant': 'offset', 'off': 2 + seed % 3, 'preload': True, 'group': 'placement-with-preload:%s' % model, 's': 1 if model == 'kpanel' else 2})
